@@ -137,9 +137,10 @@ func main() {
 	}
 
 	type shardOut struct {
-		res    *mon.Result
-		deaths []map[string]interface{}
-		err    string
+		res     *mon.Result
+		deaths  []map[string]interface{}
+		err     string
+		stopped bool
 	}
 	outs := make([]shardOut, n)
 	var wg sync.WaitGroup
@@ -217,6 +218,19 @@ func main() {
 				}
 				death["log_head"] = string(tail)
 				outs[s].deaths = append(outs[s].deaths, death)
+				// the same kind of death three times in one shard is evidence enough: do not keep paying for it
+				kind := fmt.Sprint(death["entry"], "|", death["reason"])
+				sameKind := 0
+				for _, d := range outs[s].deaths {
+					if fmt.Sprint(d["entry"], "|", d["reason"]) == kind {
+						sameKind++
+					}
+				}
+				if sameKind >= 3 {
+					outs[s].res = merged
+					outs[s].stopped = true
+					return
+				}
 				st, _ := death["stream"].(string)
 				ix, ok := death["index"].(float64)
 				if st == "" || !ok {
@@ -236,9 +250,13 @@ func main() {
 	classes := map[string]struct{}{}
 	viol := map[string]*mon.Viol{}
 	var inconclusive []string
+	stoppedShards := 0
 	for s := range outs {
 		if outs[s].err != "" {
 			inconclusive = append(inconclusive, fmt.Sprintf("shard %d: %s", s, outs[s].err))
+		}
+		if outs[s].stopped {
+			stoppedShards++
 		}
 		for _, d := range outs[s].deaths {
 			entry, _ := d["entry"].(string)
@@ -341,6 +359,9 @@ func main() {
 		}
 	}
 
+	if stoppedShards > 0 {
+		fmt.Printf("note: %d shard(s) stopped early after the same process death three times; their remaining cases were not explored\n", stoppedShards)
+	}
 	wall := time.Since(start).Seconds()
 	// ---- report
 	fmt.Printf("property %s tier=%s seed=%d workers=%d: %d evaluations, %d distinct non-trivial classes, %.1fs\n",
